@@ -93,7 +93,7 @@ PROPS = {
         "struct": True,
         "tests": ["TestC18"],
         "design_ref": "DESIGN.md §3.18",
-        "level_text": "Theorems C18_backend_totals / C18_backend_step (every backend operation's metric events match its accounting, any hash/config/sequence) and C18_failover_builds_counted / C18_failover_totals (at quiescence cache_build = builder invocations, cache_failed = failed builds, cache_refreshed = stale re-stores, under every interleaving) (Coq, no axioms). Correspondence: counting StatsTracker on backend sequences and on steered Failover workloads. Tie to the source: C18_source_read_metrics — both PrepareRead bodies, re-translated from /repo on every run, emit exactly the one metric event the model's b_read emits.",
+        "level_text": "Theorems C18_backend_totals / C18_backend_step (every backend operation's metric events match its accounting, any hash/config/sequence) and C18_failover_builds_counted / C18_failover_totals (at quiescence cache_build = builder invocations, cache_failed = failed builds, cache_refreshed = stale re-stores, under every interleaving) (Coq, no axioms). Correspondence: counting StatsTracker on backend sequences and on steered Failover workloads. Tie to the source: C18_source_read_metrics — both PrepareRead bodies, re-translated from /repo on every run, emit exactly the one metric event the model's b_read emits. Also tied to the re-translated source: C18_source_notify (NotifyWritten / NotifyDeleted / NotifyExpiredAll / NotifyDeletedAll emit cache_write 1, cache_delete 1, cache_expired n, cache_delete n once, only with a tracker) and C18_source_write_delete_notify_once.",
         "level_note": 'Trusted: as C07 and C01; metric names/labels as emitted through the StatsTracker interface.',
     },
     "C12": {
@@ -118,16 +118,17 @@ PROPS = {
         "level_note": 'Trusted: the float rounding slack (two IEEE-754 roundings + truncation) is a stated bound, validated on every run against exact rationals, not derived from a float model.',
     },
     "C09": {
+        "struct": True,
         "tests": ["TestC09"],
         "design_ref": "DESIGN.md §3.9",
-        "level_text": "Theorem C09_collision_costs_at_most_a_miss (Coq, no axioms): for EVERY hash function each keyed result is the reference result or ErrNotFound (simulation R1: every resident entry sits in its own key's slot and equals the reference entry). Correspondence: constructed xxhash64 collision pairs (verified with the real hash), exhaustive short sequences and random long ones with the caller's key buffer overwritten after every call; Failover part: steered Gets with buffer overwrite during background builds, every backend access must carry the Get's key.",
+        "level_text": "Theorem C09_collision_costs_at_most_a_miss (Coq, no axioms): for EVERY hash function each keyed result is the reference result or ErrNotFound (simulation R1: every resident entry sits in its own key's slot and equals the reference entry). Correspondence: constructed xxhash64 collision pairs (verified with the real hash), exhaustive short sequences and random long ones with the caller's key buffer overwritten after every call; Failover part: steered Gets with buffer overwrite during background builds, every backend access must carry the Get's key. Tie to the source: C09_source_key_check (the bodies of Read / Delete of the sharded maps, re-translated from /repo on every run by harness/cmd/gofunc, act on the resident entry only when bytes.Equal(entry.K, key) holds) and C09_source_write_copies_key (Write of all three backends stores make+copy of the key, never the caller's slice).",
         "level_note": 'Trusted: as C07 and C01; collision construction is checked against the real xxhash before use.',
     },
     "C07": {
         "struct": True,
         "tests": ["TestC07"],
         "design_ref": "DESIGN.md §3.7",
-        "level_text": 'Theorem C07_refines (Coq, no axioms): for every hash function, configuration and operation sequence whose keys do not collide, the hashed backend model returns exactly what the reference map with per-entry expiry returns (Walk up to order) and emits the same metric events; C07_syncmap: an injective hash (SyncMap) always qualifies; clause-by-clause corollaries on the reference map. Correspondence: random sequences on the three real backends on an exact fake clock, jitter predicted by a mirrored seeded math/rand. Tie to the source: C07_source_read_found / _missing / C07_model_read_is_prepare_read — the bodies of Trait.PrepareRead and TraitOf[V].PrepareRead, re-translated from /repo on every run (harness/cmd/gofunc -> Generated/Funcs.v, interpreter theories/GoIR.v), compute the model\'s read classification, usage counter and metric event for EVERY entry, instant, strategy and logger/tracker presence.',
+        "level_text": 'Theorem C07_refines (Coq, no axioms): for every hash function, configuration and operation sequence whose keys do not collide, the hashed backend model returns exactly what the reference map with per-entry expiry returns (Walk up to order) and emits the same metric events; C07_syncmap: an injective hash (SyncMap) always qualifies; clause-by-clause corollaries on the reference map. Correspondence: random sequences on the three real backends on an exact fake clock, jitter predicted by a mirrored seeded math/rand. Tie to the source: C07_source_read_found / _missing / C07_model_read_is_prepare_read — the bodies of Trait.PrepareRead and TraitOf[V].PrepareRead, re-translated from /repo on every run (harness/cmd/gofunc -> Generated/Funcs.v, interpreter theories/GoIR.v), compute the model\'s read classification, usage counter and metric event for EVERY entry, instant, strategy and logger/tracker presence. Also tied to the re-translated source: C07_source_read_lookup (Read of the three backends: SkipRead short-circuit, one lookup under the shard read lock, key comparison, verdict handed to PrepareRead), C07_source_delete (ErrNotFound exactly for a missing key, one removal and one NotifyDeleted otherwise), C07_source_expire_all (every entry stamped with the one instant read at the start).',
         "level_note": 'Trusted: Coq kernel; hand-written Backend.v / Spec.v (tied by ~300 sequences per quick run); xxhash64 values as printed by the harness; map iteration order treated as arbitrary (Walk compared as a set).',
     },
     "C17": {
